@@ -251,6 +251,10 @@ def run_kparse(ctx):
                     oracle_fail = f"'{src}' parses as {tree!r}, the documented precedence gives {want!r}"
                     ctx.reject(case, oracle_fail, "C02:precedence:" + src)
                     continue
+            if m == "unsup" and real in ("err", "unsup"):
+                # syntax outside the modelled AST met before the place where the real parser fails
+                ctx.count("parse_model_unsupported")
+                continue
             if real == "unsup":
                 if m.startswith("ok"):
                     ctx.model_mismatch("K-parse", case, m[:300], real, None)
